@@ -14,6 +14,8 @@ package dbft
 //@ receiver cache = cache.
 //@ alias Context.Config = Config.
 //@ runtags [C11]
+// C14: time enters only through the injected timer.
+//@ forbid [C14] wallclock
 
 // ---- interface getters: functions of the receiver (A2: payloads, blocks, keys are immutable) ----
 
@@ -64,6 +66,7 @@ package dbft
 //@ ghost gTimerD Int
 //@ ghost gTimerArms Int
 //@ ghost gClock Int
+//@ ghost gPool RefSeq Transaction
 
 // ---- predicates ----
 
@@ -202,6 +205,7 @@ package dbft
 //@ extern Config.MaxTimePerBlock
 //@   ensures result >= self.timePerBlock && result <= 1099511627776
 //@ extern Config.GetVerified
+//@   ghost gPool = result
 //@   ensures forall(k, 0, len(result), result[k] != nil)
 //@ extern Config.NewBlockFromContext
 //@   ensures result != nil
@@ -215,8 +219,13 @@ package dbft
 //@   ensures  [C11] @wf wf()
 //@   ensures  [C11] @slot slot()
 //@   ensures  @hist unchanged(self.Validators) && self.BlockIndex == old(self.BlockIndex) && self.ViewNumber >= old(self.ViewNumber) && self.MyIndex == old(self.MyIndex)
+//@   ensures  @arms gTimerArms >= old(gTimerArms)
 //@   ensures  @heap heapMono()
+//@   ensures  [C10] @timer implies(aview() && (old(timerOK()) || self.ViewNumber != old(self.ViewNumber)), timerOK())
 
+// C10: an undecided validator has a timer armed for exactly its current height and view (duration >= 0 under A-VIEW).
+//@ pred timerOK() = self.Config.WatchOnly() || self.MyIndex < 0 || self.blockProcessed
+//@      || (gTimerH == self.BlockIndex && gTimerV == self.ViewNumber && gTimerD >= 0)
 //@ pred rsor() = self.PreparationPayloads[self.PrimaryIndex] != nil
 //@ pred notWatchOnly() = self.MyIndex >= 0 && !self.Config.WatchOnly()
 //@ pred hasAllTx() = len(self.TransactionHashes) == len(self.Transactions)
@@ -263,12 +272,29 @@ package dbft
 //@   modifies Context.*, heap HeightView.*
 //@   loop 1: invariant len(c.LastChangeViewPayloads) == NN() && len(c.ChangeViewPayloads) == NN() && unchanged(c.ChangeViewPayloads, c.Validators)
 
+//@ pred truncClock() = (gClock / self.TimestampIncrement) * self.TimestampIncrement
+//@ func (*Context).getTimestamp
+//@   requires wf()
+//@   ensures [C15] @trunc result == truncClock()
+//@   modifies gClock
 //@ func (*Context).Fill
 //@   requires wf()
-//@   loop 1: invariant len(c.TransactionHashes) == len(txx) && !isnil(c.Transactions)
+//@   loop 1: invariant len(c.TransactionHashes) == len(txx) && !isnil(c.Transactions) && sametable(txx, gPool)
+//@   loop 1: invariant forall(j, 0, i, c.TransactionHashes[j] == txx[j].Hash() && has(c.Transactions, txx[j].Hash()))
 //@   ensures wf()
 //@   ensures implies(!result, self.Config.MaxTimePerBlock != nil)
-//@   modifies Context.Nonce, Context.Timestamp, Context.TransactionHashes, Context.Transactions, gClock
+//@   ensures [C15] @unchangedIfRefused implies(!result, unchanged(c.Timestamp, c.Nonce, c.TransactionHashes, c.Transactions) && c.Config.MaxTimePerBlock != nil && !force && len(gPool) == 0)
+//@   ensures [C15] @increasing implies(result, c.Timestamp > c.lastBlockTimestamp)
+//@   ensures [C15] @clock implies(result, c.Timestamp == max(c.lastBlockTimestamp + c.Config.TimestampIncrement, truncClock()))
+//@   ensures [C15] @pool implies(result, len(c.TransactionHashes) == len(gPool) && forall(j, 0, len(gPool), c.TransactionHashes[j] == gPool[j].Hash() && has(c.Transactions, gPool[j].Hash())))
+//@   modifies Context.Nonce, Context.Timestamp, Context.TransactionHashes, Context.Transactions, gClock, gPool
+//@ func (*Context).makePrepareRequest
+//@   inline
+//@   at call c.Config.NewPrepareRequest: assert [C15] @proposalFields arg0 == c.Timestamp && arg1 == c.Nonce && sametable(arg2, c.TransactionHashes)
+// C15: the proposal fields are written only when a proposal is made, received, or the context is reset.
+//@ writers [C15] Context.Timestamp : (*Context).Fill, (*DBFT).onPrepareRequest
+//@ writers [C15] Context.Nonce : (*Context).Fill, (*DBFT).onPrepareRequest
+//@ writers [C15] Context.TransactionHashes : (*Context).Fill, (*DBFT).onPrepareRequest, (*Context).reset
 
 //@ pred canMakeHeader() = rsor() && (!amev() || self.preBlockProcessed)
 //@ func (*Context).CreateBlock
@@ -310,12 +336,14 @@ package dbft
 
 //@ func (*DBFT).sendPrepareRequest
 //@   use U
+//@   ensures [C10] @arms gTimerArms > old(gTimerArms)
 //@   requires [C13] @silent notWatchOnly()
 //@   requires self.MyIndex == self.PrimaryIndex
 //@   wraps d.ViewNumber+1 unless aview()
 //@   wraps d.timePerBlock<<(d.ViewNumber+1) unless aview()
 //@ func (*DBFT).sendChangeView
 //@   use U
+//@   ensures [C10] @arms notWatchOnly() == false || gTimerArms > old(gTimerArms)
 //@   wraps d.ViewNumber+1 unless aview()
 //@   wraps c.ViewNumber+1 unless aview()
 //@   wraps newView+1 unless aview()
@@ -378,16 +406,19 @@ package dbft
 //@   use U
 //@   requires tx != nil && rsor()
 //@ func (*DBFT).Start
+//@   ensures [C10] @timer implies(aview(), timerOK())
 //@   requires cfgOK() && 0 <= self.rttEstimates.idx && self.rttEstimates.idx < 70
 //@   requires self.lastBlockTime == tzero() && self.prepareSentTime == tzero()
 //@   requires ts + self.TimestampIncrement <= 18446744073709551615
 //@   ensures [C11] @wf wf()
 //@   ensures [C11] @slot slot()
 //@ func (*DBFT).Reset
+//@   ensures [C10] @timer implies(aview(), timerOK())
 //@   requires base()
 //@   requires ts + self.TimestampIncrement <= 18446744073709551615
 //@   ensures [C11] @wf wf()
 //@   ensures [C11] @slot slot()
+//@ pred timerKept() = implies(aview() && (old(timerOK()) || self.ViewNumber != old(self.ViewNumber)), timerOK()) && gTimerArms >= old(gTimerArms)
 //@ pred sameHeight() = unchanged(self.Validators) && self.BlockIndex == old(self.BlockIndex) && self.MyIndex == old(self.MyIndex)
 //@ func (*DBFT).initializeConsensus
 //@   requires base() && implies(view > 0, wf() && slot() && view > self.ViewNumber)
@@ -397,6 +428,7 @@ package dbft
 //@   ensures self.ViewNumber >= view
 //@   ensures implies(view > 0, sameHeight())
 //@   ensures @heap heapMono()
+//@   ensures [C10] @timer implies(aview(), timerOK())
 //@   loop 1: invariant wf() && slot() && self.ViewNumber >= view && implies(view > 0, sameHeight()) && heapMono() && inboxOK(msgs)
 //@   loop 2: invariant wf() && slot() && self.ViewNumber >= view && implies(view > 0, sameHeight()) && heapMono() && inboxOK(msgs)
 //@   loop 3: invariant wf() && slot() && self.ViewNumber >= view && implies(view > 0, sameHeight()) && heapMono() && inboxOK(msgs)
@@ -415,6 +447,7 @@ package dbft
 //@   use U
 //@ func (*DBFT).onTimeout
 //@   use U
+//@   ensures [C10] @rearm implies(aview() && height == old(self.BlockIndex) && view == old(self.ViewNumber) && !old(self.blockProcessed) && notWatchOnly(), gTimerArms > old(gTimerArms) || self.blockProcessed)
 //@ func (*DBFT).OnReceive
 //@   use U
 //@   requires msg != nil
@@ -440,10 +473,10 @@ package dbft
 //@ func (*DBFT).onRecoveryMessage
 //@   use U
 //@   requires admitted(msg) && msg.Type() == RecoveryMessageType
-//@   loop 1: invariant wf() && slot() && sameHeight() && self.ViewNumber >= old(self.ViewNumber) && 0 <= validChViews && validChViews <= idx && heapMono()
-//@   loop 2: invariant wf() && slot() && sameHeight() && self.ViewNumber >= old(self.ViewNumber) && 0 <= validPrepResp && validPrepResp <= idx && heapMono()
-//@   loop 3: invariant wf() && slot() && sameHeight() && self.ViewNumber >= old(self.ViewNumber) && 0 <= validPreCommits && validPreCommits <= idx && heapMono()
-//@   loop 4: invariant wf() && slot() && sameHeight() && self.ViewNumber >= old(self.ViewNumber) && 0 <= validCommits && validCommits <= idx && heapMono()
+//@   loop 1: invariant wf() && slot() && sameHeight() && self.ViewNumber >= old(self.ViewNumber) && 0 <= validChViews && validChViews <= idx && heapMono() && timerKept()
+//@   loop 2: invariant wf() && slot() && sameHeight() && self.ViewNumber >= old(self.ViewNumber) && 0 <= validPrepResp && validPrepResp <= idx && heapMono() && timerKept()
+//@   loop 3: invariant wf() && slot() && sameHeight() && self.ViewNumber >= old(self.ViewNumber) && 0 <= validPreCommits && validPreCommits <= idx && heapMono() && timerKept()
+//@   loop 4: invariant wf() && slot() && sameHeight() && self.ViewNumber >= old(self.ViewNumber) && 0 <= validCommits && validCommits <= idx && heapMono() && timerKept()
 //@ func (*DBFT).processMissingTx
 //@   requires wf()
 //@   loop 1: invariant !isnil(self.Transactions)
@@ -470,7 +503,12 @@ package dbft
 //@   modifies Context.CommitPayloads, Context.header
 //@ func (*DBFT).changeTimer
 //@   requires wf()
+//@   requires [C10] @nonneg implies(aview(), delay >= 0)
+//@   ensures gTimerH == self.BlockIndex && gTimerV == self.ViewNumber && gTimerD == delay && gTimerArms == old(gTimerArms) + 1
 //@   modifies gTimerH, gTimerV, gTimerD, gTimerArms
+//@ callers [C10] Timer.Reset : (*DBFT).changeTimer
+//@ extern Timer.Extend
+//@   requires [C10] @nonneg arg0 >= 0
 //@ func (*DBFT).extendTimer
 //@   requires wf() && slot() && 0 <= count && count <= 4
 //@   modifies nothing
